@@ -910,7 +910,8 @@ func CoqCase(ctor string, in Input, steps []Step, kv []KVEnt) string {
 // EmitConsts prints Gen/Consts_<id>.v: the constants of pkg/db/message the model
 // depends on, read from the compiled package.
 func EmitConsts(w io.Writer, id string) {
-	fmt.Fprintf(w, "(* GENERATED by harness/cmd/%s -emit-consts from the compiled /repo tree. Do not edit. *)\n", id)
+	_ = id
+	fmt.Fprintln(w, "(* GENERATED by the C07/C08/C09 harness -emit-consts (harness/export/msgstore_C07_lib_verif.go) from the compiled /repo tree. Do not edit. *)")
 	fmt.Fprintln(w, "From Coq Require Import NArith. Open Scope N_scope.")
 	fmt.Fprintf(w, "Definition fnv64aOffset : N := %d.\n", uint64(message.VerifFNVOffset))
 	fmt.Fprintf(w, "Definition fnv64aPrime : N := %d.\n", uint64(message.VerifFNVPrime))
